@@ -129,7 +129,9 @@ func (p *PortSet) Intersection(other *PortSet) {
 
 // IsAll: return true if current PortSet object contains all ports
 func (p *PortSet) IsAll() bool {
-	return p.Equal(MakePortSet(true))
+	// all port numbers are allowed and no named port is excluded; named ports which are allowed in addition
+	// do not matter, as any named port is one of the allowed port numbers
+	return p.Ports.Equal(interval.New(minPort, maxPort).ToSet()) && len(p.ExcludedNamedPorts) == 0
 }
 
 const comma = ","
